@@ -92,6 +92,47 @@ pub fn single_op_space(tier: Tier, var: u64) -> Vec<Single> {
             }
         }
     }
+    // larger sizes, sparsely: long last dimensions, long inner dimensions
+    for d in long_shapes() {
+        for (op, kind) in &unary {
+            out.push(Single {
+                family: "unary-long",
+                prog: Program { leaves: vec![leaf(&d, 0, *kind, var)], nodes: vec![PNode { op: op.clone(), args: vec![0] }], retrack: Vec::new() },
+            });
+        }
+        for k in 1..=d.len() {
+            out.push(Single {
+                family: "sum-long",
+                prog: Program { leaves: vec![leaf(&d, 0, 1, var)], nodes: vec![PNode { op: OpK::Sum(k), args: vec![0] }], retrack: Vec::new() },
+            });
+        }
+        let last = vec![*d.last().unwrap()];
+        for op in &bin {
+            for (x, y) in [(d.clone(), last.clone()), (last.clone(), d.clone()), (d.clone(), d.clone())] {
+                out.push(Single {
+                    family: "binary-long",
+                    prog: Program { leaves: vec![leaf(&x, 0, 0, var), leaf(&y, 1, 0, var)], nodes: vec![PNode { op: op.clone(), args: vec![0, 1] }], retrack: Vec::new() },
+                });
+            }
+        }
+    }
+    for inner in [4usize, 5, 8, 9, 17] {
+        for ta in [false, true] {
+            for tb in [false, true] {
+                let (rows, cols) = (2usize, 3usize);
+                let am = if ta { vec![inner, rows] } else { vec![rows, inner] };
+                let bm = if tb { vec![cols, inner] } else { vec![inner, cols] };
+                out.push(Single {
+                    family: "matmul-long",
+                    prog: Program {
+                        leaves: vec![leaf(&am, 0, 0, var), leaf(&[vec![2], bm.clone()].concat(), 1, 0, var), leaf(&[cols], 2, 0, var)],
+                        nodes: vec![PNode { op: OpK::Matmul { ta, tb, bias: true }, args: vec![0, 1, 2] }],
+                        retrack: Vec::new(),
+                    },
+                });
+            }
+        }
+    }
     // matmul
     let leads: Vec<Vec<usize>> = match tier {
         Tier::Quick => vec![vec![], vec![1], vec![2], vec![2, 1], vec![2, 2]],
@@ -130,7 +171,10 @@ pub fn single_op_space(tier: Tier, var: u64) -> Vec<Single> {
 
 pub fn explore(opts: &Opts) -> Explored {
     let var = opts.seed % 3;
-    let space = single_op_space(opts.tier, var);
+    let mut space = single_op_space(opts.tier, var);
+    // a second, degenerate valuation (all elements of an operand equal) for the families whose
+    // generic valuation is the integer progression
+    space.extend(single_op_space(opts.tier, 3).into_iter().filter(|s| matches!(s.family, "binary" | "matmul" | "conv" | "binary-long" | "matmul-long")));
     let thorough = opts.tier == Tier::Thorough;
     let local = par(opts, space.len(), |i, l| {
         let s = &space[i];
